@@ -10,6 +10,7 @@ Invariants are written over the abstraction (prefix index i, fold functions of p
 arrays), are universal-only, and name as few locals as possible.
 """
 import ast
+import os
 import types
 
 import z3
@@ -31,7 +32,10 @@ class Schema:
     'list:<Class>' (list of refs), 'id' (opaque identity, compared only by ==/is)"""
 
     def __init__(self, cls, **fields):
-        self.cls, self.fields = cls, fields
+        self.cls = cls
+        self.immutable = {f for f, k in fields.items() if k.endswith("!")}     # assigned only by __init__
+        self.fields = {f: k.rstrip("!") for f, k in fields.items()}
+        self.allocatable = bool(self.immutable)
 
 
 SCHEMAS = {}
@@ -88,6 +92,8 @@ def wrap(kind, t, owner=None):
         return SymList(t, cls)
     if kind == "id":
         return SymId(t)
+    if kind == "text":
+        return SymText(t)
     raise Inapplicable(f"field kind {kind}")
 
 
@@ -106,9 +112,13 @@ def unwrap(kind, v):
         raise Inapplicable(f"storing {type(v).__name__} into a reference field")
     if kind.startswith("list:"):
         return as_seq(v)
-    if kind == "id":
+    if kind in ("id", "text"):
         if isinstance(v, SymId):
             return v.t
+        if v is None:
+            return z3.IntVal(NONE_REF)
+        if kind == "text" and v == "":
+            return EMPTY_TEXT
         raise Inapplicable("storing a concrete object into an opaque field")
     raise Inapplicable(f"field kind {kind}")
 
@@ -121,6 +131,24 @@ class SymId(SymObject):
 
     def __eq__(self, o):
         return mkbool(self.t == o.t) if isinstance(o, SymId) else False
+
+    def __hash__(self):
+        return id(self)
+
+
+NONEMPTY = z3.Function("text_nonempty", INT, BOOL)
+EMPTY_TEXT = z3.IntVal(-2)
+
+
+class SymText(SymId):
+    """an opaque str (or None) known by identity; its truthiness is the uninterpreted predicate
+    text_nonempty(id) (None and '' are falsy)"""
+
+    def __bool__(self):
+        p = cur()
+        if p.branch(z3.Or(self.t == NONE_REF, self.t == EMPTY_TEXT)):
+            return False
+        return p.branch(NONEMPTY(self.t))
 
     def __hash__(self):
         return id(self)
@@ -164,6 +192,17 @@ class SymRef(SymObject):
             raise Inapplicable(f"store to undeclared field {self.cls.__name__}.{name}")
         p = cur()
         arr = heap_array(p, self.cls, name)
+        if name in sch.immutable:
+            # a field that only __init__ assigns: the array is never updated.  Initialising the
+            # field of a freshly allocated object *chooses* the object among the unallocated
+            # identities whose (so far unconstrained) content is the value; vacuity is excluded by
+            # a satisfiability check.
+            if self.ref.get_id() not in p.ghost.get("constructing", set()):
+                raise Inapplicable(f"store to {self.cls.__name__}.{name} outside the constructor")
+            p.assume(z3.Select(arr, self.ref) == unwrap(sch.fields[name], value))
+            if p.entails(z3.BoolVal(False)):
+                raise Inapplicable("allocation assumption is inconsistent with the path condition")
+            return
         set_heap_array(p, self.cls, name, z3.Store(arr, self.ref, unwrap(sch.fields[name], value)))
         p.ghost.setdefault("stores", []).append((self.cls.__name__, name))
 
@@ -203,6 +242,11 @@ def as_seq(v):
     raise Inapplicable(f"not a list: {type(v).__name__}")
 
 
+def _unit_elem(unit):
+    """the element term of a z3 Unit(...) sequence"""
+    return unit.arg(0)
+
+
 class SymList(SymIterable):
     """list of unknown length; elements are refs of `cls` (or ints when cls is None)"""
 
@@ -217,15 +261,24 @@ class SymList(SymIterable):
     def elem(self, i):
         idx = (z3.Length(self.t) - 1 - zint(i)) if self.rev else zint(i)
         e = self.t[idx]
-        return SymRef(self.cls, e) if self.cls is not None else sym.mkint(e)
+        if self.cls is not None:
+            cur().assume(e >= 0)          # object identities are non-negative (NONE_REF = -1 is None)
+            return SymRef(self.cls, e)
+        return sym.mkint(e)
 
     def reversed(self):
         return SymList(self.t, self.cls, self.attrs, not self.rev)
 
     def append(self, x):
-        self.t = z3.Concat(self.t, as_seq([x]))
+        one = as_seq([x])
+        cur().ghost.setdefault("appends", []).append((self.t, _unit_elem(one)))
+        self.t = z3.Concat(self.t, one)
 
     def extend(self, xs):
+        if isinstance(xs, (list, tuple)):
+            for x in xs:
+                self.append(x)
+            return
         self.t = z3.Concat(self.t, as_seq(xs))
 
     def sym_getattr(self, interp, name):
@@ -293,6 +346,12 @@ def install(interp):
     def b_reversed(x):
         return x.reversed() if isinstance(x, SymList) else reversed(x)
     ov[builtins.reversed] = b_reversed
+
+    def b_list(*a):
+        if a and isinstance(a[0], SymList):
+            return SymList(a[0].t, a[0].cls)          # a copy: same elements, independent spine
+        return list(*a)
+    ov[builtins.list] = b_list
     old_truth = interp.truth
 
     def truth(v):
@@ -308,8 +367,34 @@ def install(interp):
         # list subclasses built from a symbolic list stay symbolic (CaptionList(symlist, layout_info=..))
         if isinstance(cls, type) and issubclass(cls, list) and args and isinstance(args[0], SymList):
             return SymList(args[0].t, args[0].cls, dict(kwargs))
+        sch = SCHEMAS.get(cls)
+        if sch is not None and sch.allocatable and cur().ghost.get("symbolic_heap"):
+            return allocate(interp, cls, args, kwargs)
         return old_inst(cls, args, kwargs)
     interp.instantiate = instantiate
+
+
+def allocate(interp, cls, args, kwargs):
+    """cls(*args, **kwargs) on the symbolic heap: a fresh identity (distinct from every identity
+    allocated before on this path and not below the allocation base), then the REAL __init__ is
+    interpreted on it."""
+    p = cur()
+    k = p.ghost.get("alloc_count", 0)
+    p.ghost["alloc_count"] = k + 1
+    r = p.fresh_int(f"new_{cls.__name__}")
+    p.assume(r == ALLOC_BASE + k)
+    p.assume(ALLOC_BASE >= 0)
+    ref = SymRef(cls, r)
+    p.ghost.setdefault("constructing", set()).add(r.get_id())
+    try:
+        init = next(k_.__dict__["__init__"] for k_ in cls.__mro__ if "__init__" in k_.__dict__)
+        interp.call_function(init, (ref,) + tuple(args), kwargs)
+    finally:
+        p.ghost["constructing"].discard(r.get_id())
+    return ref
+
+
+ALLOC_BASE = z3.Int("alloc_base")
 
 
 # --------------------------------------------------------------------------------------------- loops
